@@ -1,6 +1,7 @@
 (* Props_C06.v — C06: every sampler is handed the Gaussian log-likelihood of the binned model. *)
 From Coq Require Import Reals List Lra.
 From TV Require Import Num ListNum ListNumR Model_C06 Proofs_C06.
+From TV Require Import NumIv Reflect.
 Import ListNotations.
 Local Open Scope R_scope.
 
@@ -65,3 +66,11 @@ Theorem C06_multinest_prior_in_place : forall (samplers : list (R -> R)) (cube :
   skipn (length samplers) (@multinest_prior R samplers cube) = skipn (length samplers) cube.
 Proof. exact multinest_prior_prefix. Qed.
 Print Assumptions C06_multinest_prior_in_place.
+
+(* the executed (interval) instance of the Gaussian log-likelihood encloses the real-number instance, for positive
+   error bars (Reflect.v) *)
+Theorem C06_loglike_enclosed : forall dI dR sI sR mI mR, encl_list dI dR -> encl_list sI sR -> encl_list mI mR ->
+  Forall (fun s => 0 < s) sR ->
+  encloses (@gauss_loglike _ IvTNum dI sI mI) (@gauss_loglike R RTNum dR sR mR).
+Proof. exact gauss_loglike_transfer. Qed.
+Print Assumptions C06_loglike_enclosed.
